@@ -25,7 +25,7 @@ UNPROVED = ['cw_rankedpairs (rankedPairs sc v 1 = ok [w]): FALSE as stated on th
             'candidate, here the whole Smith set)',
             'rankedpairs no_candidate_dropped: FALSE (rankedpairs_dropped_witness)',
             'copeland second-order defining computation (only the first-order scores are characterised: copeland_defining)']
-NAME_MODES = ['str', 'int0', 'empty0']
+NAME_MODES = ['str', 'int0', 'empty0', 'person']
 REQUIRED_COUNTERS = ['converter', 'has_cw', 'sparse_never_loser', 'all_tied', 'cycle', 'from_ranked', 'uab_true', 'uab_false',
                      'n_all', 'n_one', 'hybrid', 'second_order_used', 'fraction', 'missing_pair']
 RULE = ('pairwise dictionaries over 2-5 candidates (6 occasionally) as in C06 (sparse / dense / tied / zero-count entries, '
